@@ -75,7 +75,7 @@ fn axis_name(a: AxisType) -> &'static str {
 fn class_of(family: &str) -> &'static str {
     let f = family.trim_end_matches("(direct)");
     match f {
-        "same-line" | "same-line-reindexed" | "cross-line" | "elsewhere" | "transposed" | "axis-flag-flipped" => "sample-of-other-position",
+        "same-line" | "same-line-reindexed" | "same-line-alias-index" | "cross-line" | "elsewhere" | "transposed" | "axis-flag-flipped" => "sample-of-other-position",
         "outside-square" | "outside-square-reindexed" | "outside-square-alt-tree-shape" => "sample-of-other-position",
         "share-byte-altered" | "share-substituted" => "altered-share",
         "other-square" => "other-square",
@@ -415,6 +415,50 @@ impl Mon<'_> {
             (p.start, p.end) = (want as i64, want as i64 + 1);
             p.nodes.reverse();
             self.present(sq, "same-line-reindexed", r, c, &raw2, format!("honest sample of ({}, {}), range rewritten, siblings reversed", pos.0, pos.1));
+        }
+
+        // --- index aliasing: nmt-rs derives the left/right structure of the path only from the number
+        // of set bits of the start index, so the last leaf of the line (all siblings on the left)
+        // also verifies under any index with that many set bits. An index that agrees with the
+        // requested one only in its low 8/16/32 bits must not be mistaken for it (a position
+        // comparison done in a narrower integer type would be).
+        {
+            let last = w - 1;
+            let last_pos = match axis {
+                AxisType::Row => (r, last),
+                AxisType::Col => (last, c),
+            };
+            if want != last {
+                if let Some(s) = self.honest_sample(sq, last_pos.0, last_pos.1, axis) {
+                    let levels = w.trailing_zeros();
+                    let extra = levels - (want as u32).count_ones();
+                    for shift in [8u32, 16, 32] {
+                        if (want as u64) >> shift != 0 {
+                            continue;
+                        }
+                        let start = (want as i64) | ((((1i64 << extra) - 1)) << shift);
+                        let mut raw = RawSample::from(s.clone());
+                        let p = raw.proof.as_mut().unwrap();
+                        (p.start, p.end) = (start, start + 1);
+                        if sq.at(last_pos.0, last_pos.1) != sq.at(r, c) {
+                            self.ctx.nontrivial(&key("same-line-alias-index", (shift as usize, start as usize)));
+                            self.ctx.count("adv.nontrivial");
+                            self.ctx.count("adv.alias_index_candidates");
+                        }
+                        self.present(
+                            sq,
+                            "same-line-alias-index",
+                            r,
+                            c,
+                            &raw,
+                            format!(
+                                "honest {ax}-proof sample of the last position ({}, {}) re-labelled as leaf {start} (= requested index {want} in its low {shift} bits, same number of set bits as {last})",
+                                last_pos.0, last_pos.1
+                            ),
+                        );
+                    }
+                }
+            }
         }
 
         // --- the requested position itself, tampered -------------------------------------------
